@@ -69,7 +69,7 @@ def plan(tier, seed):
 
 
 def mandatory(tier):
-    return [f"op/{o}" for o in OPS] + ["chain", "type/ImageBatch", "type/Image", "type/FlowFields", "compared_samples"]
+    return [f"op/{o}" for o in OPS] + ["chain", "type/ImageBatch", "type/Image", "type/FlowFields", "compared_samples", "pyramid/align_corners=None", "pyramid/align_corners=True", "pyramid/align_corners=False"]
 
 
 # ---------------------------------------------------------------------------------------------
@@ -372,8 +372,10 @@ def apply_op(ctx, rng, subj: Subject, op, desc0, noise=None):
         max_l = int(np.floor(np.log2(max(min(n), 4) / 4))) + 1
         levels = int(rng.integers(2, max(max_l, 2) + 1))
         sigma = [None, 0][int(rng.integers(0, 2))]
-        desc = dict(op=op, levels=levels, sigma=sigma)
-        call = lambda: batch.pyramid(levels, sigma=sigma)  # noqa: E731
+        ac = [None, True, False][int(rng.integers(0, 3))]
+        desc = dict(op=op, levels=levels, sigma=sigma, align_corners=ac)
+        ctx.bucket(f"pyramid/align_corners={ac}")
+        call = lambda: batch.pyramid(levels, sigma=sigma, align_corners=ac)  # noqa: E731
     else:
         call, desc = rand_call(rng, batch, op)
     pub = {k: v for k, v in desc.items() if not k.startswith("_")}
